@@ -130,6 +130,20 @@ Proof.
   - unfold rehydrate. destruct (tstatus (buf s)); try exact H.
     destruct (condn s); simpl; try exact H;
       [apply (wf_set_status (buf s) Healthy) | apply (wf_set_status (buf s) Unhealthy)].
+  - destruct (tstatus (dry_run (buf s) true)), (condn s); simpl; try exact H; apply wf_insert, H.
+  - destruct (tstatus (dry_run (buf s) false)), (condn s); simpl; try exact H; apply wf_insert, H.
+Qed.
+
+(* a faulted record either changes nothing or is exactly the unfaulted record *)
+Lemma conflict_success s : step s RecordSuccessConflict = s \/ step s RecordSuccessConflict = step s RecordSuccess.
+Proof.
+  cbn [step]. destruct (tstatus (dry_run (buf s) true)) eqn:E, (condn s) eqn:C; auto;
+    right; destruct s as [b c]; cbn [buf condn] in *; subst; reflexivity.
+Qed.
+Lemma conflict_failure s : step s RecordFailureConflict = s \/ step s RecordFailureConflict = step s RecordFailure.
+Proof.
+  cbn [step]. destruct (tstatus (dry_run (buf s) false)) eqn:E, (condn s) eqn:C; auto;
+    right; destruct s as [b c]; cbn [buf condn] in *; subst; reflexivity.
 Qed.
 
 Lemma swf_run_from ops s : swf s -> swf (fold_left step ops s).
@@ -269,6 +283,47 @@ Proof.
         destruct (tstatus b) eqn:Es; cbn [buf condn]; try exact Hc.
         rewrite (tstatus_chron _ Hw) in Es. unfold window in *. cbn [buf] in *.
         destruct c; cbn [condn]; try exact I; congruence.
+    + (* RecordSuccessConflict *)
+      apply andb_prop in Hhist as [Hn Hhist]. destruct pending; [discriminate|].
+      destruct (conflict_success s) as [Ec|Ec]; rewrite Ec; clear Ec.
+      { apply (IH false); [|exact Hhist]. split; [exact Hw|]. split; [exact Hp|exact Hc]. }
+      {
+        apply (IH false); [|exact Hhist].
+        destruct (record_success_l s Hw) as (Hwin & Ht & Hf).
+        split; [apply swf_step, Hw|]. split; [discriminate|]. intros _.
+        specialize (Hc eq_refl).
+        assert (Hne : window (step s RecordSuccess) <> []) by (rewrite Hwin; apply lastn_snoc_nonempty).
+        rewrite (wstatus_nonempty _ Hne).
+        destruct (failures_fill_half (window (step s RecordSuccess))) eqn:E.
+        * rewrite (Hf eq_refl).
+          destruct (condn s) eqn:Ec; auto.
+          exfalso.
+          (* a success cannot turn a healthy window unhealthy *)
+          revert Hc E. rewrite Hwin. unfold window.
+          shapes (buf s) Hw; unfold wstatus, failures_fill_half, chron, lastn, count_false, cap; simpl;
+            repeat match goal with |- context [negb ?a] => destruct a; simpl end; congruence.
+        * rewrite (Ht eq_refl). reflexivity.
+      }
+    + (* RecordFailureConflict *)
+      apply andb_prop in Hhist as [Hn Hhist]. destruct pending; [discriminate|].
+      destruct (conflict_failure s) as [Ec|Ec]; rewrite Ec; clear Ec.
+      { apply (IH false); [|exact Hhist]. split; [exact Hw|]. split; [exact Hp|exact Hc]. }
+      {
+        apply (IH false); [|exact Hhist].
+        destruct (record_failure_l s Hw) as (Hwin & Ht & Hf).
+        split; [apply swf_step, Hw|]. split; [discriminate|]. intros _.
+        specialize (Hc eq_refl).
+        assert (Hne : window (step s RecordFailure) <> []) by (rewrite Hwin; apply lastn_snoc_nonempty).
+        rewrite (wstatus_nonempty _ Hne).
+        destruct (failures_fill_half (window (step s RecordFailure))) eqn:E.
+        * rewrite (Ht eq_refl). reflexivity.
+        * rewrite (Hf eq_refl).
+          destruct (condn s) eqn:Ec; auto.
+          exfalso.
+          revert Hc E. rewrite Hwin. unfold window.
+          shapes (buf s) Hw; unfold wstatus, failures_fill_half, chron, lastn, count_false, cap; simpl;
+            repeat match goal with |- context [negb ?a] => destruct a; simpl end; congruence.
+      }
 Qed.
 
 Lemma cond_matches_window_l ops : hydrated_hist false ops = true ->
@@ -318,6 +373,14 @@ Proof.
       { intros E. apply wstatus_unknown_iff in E. discriminate. }
       destruct (wstatus (x :: w)); try congruence; cbn [buf condn]; rewrite Ec;
         destruct c; reflexivity.
+  - pose proof (dry_status s true H) as Hd. unfold abs. cbn [step sstep].
+    destruct s as [b c]. unfold swf in H. cbn [buf condn] in *. unfold window in *. cbn [buf] in *.
+    rewrite Hd. destruct (failures_fill_half (lastn cap (chron b ++ [true]))) eqn:E;
+      destruct c; cbn [buf condn]; rewrite ?chron_insert by exact H; reflexivity.
+  - pose proof (dry_status s false H) as Hd. unfold abs. cbn [step sstep].
+    destruct s as [b c]. unfold swf in H. cbn [buf condn] in *. unfold window in *. cbn [buf] in *.
+    rewrite Hd. destruct (failures_fill_half (lastn cap (chron b ++ [false]))) eqn:E;
+      destruct c; cbn [buf condn]; rewrite ?chron_insert by exact H; reflexivity.
 Qed.
 
 Lemma sys_refines_from ops s : swf s ->
